@@ -43,5 +43,43 @@ theorem await_passes_exceptions_on (a : ActId) (fs : List (Frame Rat)) (e : ExnI
     w.stepRaise a (.condLoop c) fs e = w.raiseTo a fs e := by
   simp only [stepRaise]
 
+/-! ### what a derived condition evaluates to: and / or / not of the *current* values of its operands
+
+(`Props/MachineStructure.lean: connective_children_forever, inverse_forever` - the operands are for ever the ones it was built
+from; `Props/C08.lean` - `~` of an expression is its negation, De Morgan included) -/
+
+/-- `a & b & ...` is true exactly when every operand is true now -/
+theorem eval_conjunction (f : Nat) (c : CondId) (cs : List CondId) (h : (w.cond c).kind = .all cs) :
+    w.evalCond (f + 1) c = cs.all (w.evalCond f) := by
+  simp only [evalCond, h]
+
+/-- `a | b | ...` is true exactly when some operand is true now -/
+theorem eval_disjunction (f : Nat) (c : CondId) (cs : List CondId) (h : (w.cond c).kind = .any cs) :
+    w.evalCond (f + 1) c = cs.any (w.evalCond f) := by
+  simp only [evalCond, h]
+
+/-- `~flag` is true exactly when the flag is false now -/
+theorem eval_inverse_flag (f : Nat) (c fl : CondId) (h : (w.cond c).kind = .invFlag fl) :
+    w.evalCond (f + 1) c = !(w.evalCond f fl) := by
+  simp only [evalCond, h]
+
+/-- `~task.done` is true exactly when `task.done` is false now -/
+theorem eval_not_done (f : Nat) (c d : CondId) (h : (w.cond c).kind = .notDone d) :
+    w.evalCond (f + 1) c = !(w.evalCond f d) := by
+  simp only [evalCond, h]
+
+/-- a comparison of a tracked value is evaluated on the value stored now -/
+theorem eval_comparison (f : Nat) (c : CondId) (x : Name) (op : Nat) (v : Int) (h : (w.cond c).kind = .cmp x op v) :
+    w.evalCond (f + 1) c = cmpOp op (w.tracked.getD x default).value v := by
+  simp only [evalCond, h]
+
+/-- a time condition is evaluated on the clock as it reads now -/
+theorem eval_time (f : Nat) (c : CondId) (d : Rat) :
+    ((∃ s, (w.cond c).kind = .after d s) → w.evalCond (f + 1) c = TimeLike.ge w.time d) ∧
+    ((w.cond c).kind = .before d → w.evalCond (f + 1) c = TimeLike.lt w.time d) := by
+  constructor
+  · rintro ⟨s, h⟩; simp only [evalCond, h]
+  · intro h; simp only [evalCond, h]
+
 end World
 end USim.Machine
